@@ -1518,6 +1518,9 @@ def seq_make_ops(r, lib, oc, d, default_hn, nops):
         return r.choice(others) if force == "explicit" else r.choice([None, None] + others)
 
     def mk(opname, force=None):
+        if opname == "precompute":
+            # VerifyingKey.precompute(lazy): the public point becomes a generator-style point with a multiplication table
+            return {"op": "precompute", "lazy": r.random() < 0.5, "hash": None, "enc": "string", "canon": False, "msg": ""}
         kind = r.choice(["string", "strings", "der"])
         canon = r.random() < 0.3
         hn = pick_hash(force)
@@ -1551,6 +1554,8 @@ def seq_make_ops(r, lib, oc, d, default_hn, nops):
         return op
     names = ["sign", "sign_deterministic", "sign_digest", "sign_digest_deterministic", "verify", "verify", "verify_digest"]
     ops = [mk(r.choice(names)) for _ in range(nops)]
+    if r.random() < 0.6:
+        ops.insert(r.randrange(len(ops) + 1), mk("precompute"))
     # every hashing entry point once with an explicit non-default hash and then with the default
     for nm in ("verify", "sign", "sign_deterministic", "sign_digest_deterministic"):
         ops.append(mk(nm, "explicit"))
@@ -1563,6 +1568,8 @@ def seq_run_op(lib, sk, vk, c, op):
     enc, dec = enc_pair(lib, op["enc"], op["canon"])
     msg = bytes.fromhex(op["msg"])
     nm = op["op"]
+    if nm == "precompute":
+        return run_s(lib, vk.precompute, op["lazy"])
     if nm == "sign":
         res = run_s(lib, sk.sign, msg, None, hf, enc, op["k"], op["allow"])
     elif nm == "sign_deterministic":
@@ -1588,6 +1595,8 @@ def seq_run_op(lib, sk, vk, c, op):
 def seq_expected(lib, oc, d, default_hn, op, res):
     """what an independent implementation says about the result (None: no opinion)"""
     n, c = oc.n, oc.curve
+    if op["op"] == "precompute":
+        return None
     eff = op["hash"] or default_hn
     msg = bytes.fromhex(op["msg"])
     _, dec = enc_pair(lib, op["enc"], op["canon"])
